@@ -487,7 +487,13 @@ class Orchestrator:  # thailint: ignore[srp]
         self, file_paths: list[Path], max_workers: int
     ) -> list[Violation]:
         """Execute parallel linting using process pool."""
-        work_items = [(fp, self.project_root, self.config) for fp in file_paths]
+        # Files ignored by this run's parser (it may carry the ignore list of an explicit --config file,
+        # which the workers' own parsers do not know) are not dispatched at all
+        work_items = [
+            (fp, self.project_root, self.config)
+            for fp in file_paths
+            if not self.ignore_parser.is_ignored(fp)
+        ]
 
         with ProcessPoolExecutor(max_workers=max_workers) as executor:
             futures = [executor.submit(_lint_file_worker, item) for item in work_items]
